@@ -443,6 +443,11 @@ def _used_names_in_file(filename: Path) -> Collection[str]:
     imported_names = tracing.get_imported_names(ast_root)
 
     names = []
+    for node in core.walk(ast_root, ast.ImportFrom):
+        # What is imported has to exist where it is imported from, under its own name (not the
+        # alias it gets here), whether or not this file goes on to use it.
+        names.extend(alias.name for alias in node.names)
+
     for node in core.walk(ast_root, (ast.Name, ast.Attribute)):
         if isinstance(node, ast.Name) and node.id in imported_names:
             names.append(node.id)
